@@ -49,7 +49,7 @@ def main(argv):
                     eng = (b"\x80\x00\x1f\x88" + gen.rbytes(rng, rng.choice([4, 9, 28]), False)).hex()
                     v3 = {"user": "cuser", "auth": [auth, akt, gen.rbytes(rng, ks if akt else 10, False).hex()],
                           "priv": [priv, pkt, gen.rbytes(rng, ks if pkt else 11, False).hex()], "engine_id": eng if given else None,
-                          "agent_engine_id": eng, "boots": rng.randrange(2 ** 31), "time": rng.randrange(2 ** 31)}
+                          "agent_engine_id": eng, "boots": rng.choice([0, 2 ** 31 - 1, rng.randrange(2 ** 31)]), "time": rng.choice([0, 2 ** 31 - 1, rng.randrange(2 ** 31)])}
                     vb = ber.varbind(ber.enc_oid([1, 3, 6, 1, 2, 1, 1, 5, 0]), ber.enc_value("os", b"secret-reply"))
                     steps = [{"op": "enter", "default_reply": {"pdu_tag": 0xA8, "mac": "absent", "encrypt": "no", "flags": 0}},
                              {"op": "get", "args": ["1.3.6.1.2.1.1.5.0"], "replies": [[{"vbs": vb.hex()}]]},
